@@ -827,6 +827,21 @@ func runFacts(repo, outdir string) error {
 			gated := ig >= 0 && io > ig && strings.Contains(osrc[ig:io], "ErrNotFound") && strings.Contains(lsrc, "atomic.LoadUint64(&w.commitIdx)")
 			lcc.raw(fmt.Sprintf("/-- the tail reader is gated on the commit index: `OffsetForFrame` returns ErrNotFound for `idx > w.LastIndex()` before reading the offsets slice, and `LastIndex` is an atomic load of `commitIdx` -/\ndef readsGatedOnCommitIdx : Bool := %v\n\n", gated))
 		}
+		{
+			// order inside mutateStateLocked: meta commit, then publish (w.s.Store), then attach the finalizer to the
+			// replaced state — the order of the model's writer steps held → published → finSet. A finalizer attached
+			// before the commit would run (closing and deleting files) when the commit fails.
+			ms, err := walP.fn("WAL", "mutateStateLocked")
+			if err != nil {
+				return err
+			}
+			msrc := walP.src(ms.Body)
+			ic := strings.Index(msrc, "w.metaDB.CommitState(")
+			ip := strings.Index(msrc, "w.s.Store(")
+			ifn := strings.Index(msrc, "s.finalizer.Store(")
+			ordered := ic >= 0 && ip > ic && ifn > ip && strings.Count(msrc, "s.finalizer.Store(") == 1
+			lcc.raw(fmt.Sprintf("/-- `mutateStateLocked` commits the meta state, then publishes the new state, then attaches the finalizer to the replaced one (in that order, once) -/\ndef finalizerAttachedAfterPublish : Bool := %v\n\n", ordered))
+		}
 		if err := lcc.finish(outdir); err != nil {
 			return err
 		}
